@@ -58,6 +58,54 @@ func (m *c38Model) writeHeader(code int) {
 	}
 }
 
+// declaredTrailers returns the canonical names declared before the header was written plus
+// the "Trailer:"-prefixed keys present when the handler returns, and the final values.
+func (m *c38Model) declaredTrailers() (decl []string, final map[string][]string, prefixed bool) {
+	final = map[string][]string{}
+	for k, v := range m.hdr {
+		final[k] = v
+	}
+	seen := map[string]bool{}
+	for _, v := range m.snap["Trailer"] {
+		for _, t := range strings.Split(v, ",") {
+			t = textproto.CanonicalMIMEHeaderKey(strings.TrimSpace(t))
+			if t == "" || t == "Content-Length" || t == "Transfer-Encoding" || t == "Trailer" || seen[t] {
+				continue
+			}
+			seen[t] = true
+			decl = append(decl, t)
+		}
+	}
+	for k, v := range m.hdr {
+		if strings.HasPrefix(k, "Trailer:") {
+			t := textproto.CanonicalMIMEHeaderKey(strings.TrimPrefix(k, "Trailer:"))
+			if !seen[t] {
+				seen[t] = true
+				decl = append(decl, t)
+			}
+			final[t] = v
+			prefixed = true
+		}
+	}
+	sort.Strings(decl)
+	return
+}
+
+// predictsUnsetTrailerHang: trailers were declared but none has a value (the shape of the
+// known finding c38KeyUnsetTrailer).
+func (m *c38Model) predictsUnsetTrailerHang(method string) bool {
+	decl, final, _ := m.declaredTrailers()
+	if method == "HEAD" || len(decl) == 0 {
+		return false
+	}
+	for _, t := range decl {
+		if len(final[t]) > 0 {
+			return false
+		}
+	}
+	return true
+}
+
 func c38Bodyless(status int) bool {
 	return (status >= 100 && status <= 199) || status == 204 || status == 304
 }
@@ -303,7 +351,6 @@ func c38Run(rt *rapid.T, rec *ev.Rec) {
 		reqs[i] = c38GenReq(rt, i)
 		trace = append(trace, fmt.Sprintf("stream %d %s: %s", 2*i+1, reqs[i].method, strings.Join(reqs[i].desc, "; ")))
 	}
-	classes := map[string]bool{}
 	r, ok := newRig(nil, []xh2.Setting{{ID: xh2.SettingInitialWindowSize, Val: 1 << 20}}, nil)
 	if !ok {
 		rec.Excluded("setup-incomplete")
@@ -322,6 +369,7 @@ func c38Run(rt *rapid.T, rec *ev.Rec) {
 			break
 		}
 		id := uint32(2*i + 1)
+		classes := map[string]bool{}
 		path := fmt.Sprintf("/r%d", i)
 		h := r.expectHandler(path, append([]hop{}, q.ops...))
 		if r.writeHeaders(id, reqFields(q.method, path), true) != nil {
@@ -341,6 +389,20 @@ func c38Run(rt *rapid.T, rec *ev.Rec) {
 			return false
 		}
 		gotEnd := r.settle(40, ended)
+		if !gotEnd && !r.dead() && !r.wasTimedOut() && !(q.model.predictsUnsetTrailerHang(q.method) && rec.Known(c38KeyUnsetTrailer)) {
+			// The handler function has returned but the server's final flush may still be
+			// pending on a loaded machine: wait for END_STREAM up to the watchdog. Only a
+			// response that is still unfinished then, on a connection that still answers
+			// PING, counts as "no END_STREAM".
+			gotEnd = r.waitFor(ended)
+			if !gotEnd && r.wasTimedOut() {
+				r.locked(func() { r.timedOut = false })
+				if !r.ping() {
+					inconclusive = "watchdog"
+					break
+				}
+			}
+		}
 		if !gotEnd && (r.dead() || r.wasTimedOut()) {
 			if r.wasTimedOut() {
 				inconclusive = "watchdog"
@@ -395,34 +457,10 @@ func c38Run(rt *rapid.T, rec *ev.Rec) {
 			}
 		}
 		// declared trailers
-		final := map[string][]string{}
-		for k, v := range m.hdr {
-			final[k] = v
+		decl, final, prefixed := m.declaredTrailers()
+		if prefixed {
+			classes["prefixed-trailer"] = true
 		}
-		var decl []string
-		seen := map[string]bool{}
-		for _, v := range m.snap["Trailer"] {
-			for _, t := range strings.Split(v, ",") {
-				t = textproto.CanonicalMIMEHeaderKey(strings.TrimSpace(t))
-				if t == "" || t == "Content-Length" || t == "Transfer-Encoding" || t == "Trailer" || seen[t] {
-					continue
-				}
-				seen[t] = true
-				decl = append(decl, t)
-			}
-		}
-		for k, v := range m.hdr {
-			if strings.HasPrefix(k, "Trailer:") {
-				t := textproto.CanonicalMIMEHeaderKey(strings.TrimPrefix(k, "Trailer:"))
-				if !seen[t] {
-					seen[t] = true
-					decl = append(decl, t)
-				}
-				final[t] = v
-				classes["prefixed-trailer"] = true
-			}
-		}
-		sort.Strings(decl)
 		var wantTrailer []kv
 		for _, t := range decl {
 			for _, v := range final[t] {
